@@ -707,6 +707,9 @@ func (e *Enc) ret(x *ssa.Return) {
 		e.retCount[en.Label]++
 		o := e.addObl("post", fmt.Sprintf("post:%s@ret%d", en.Label, e.retCount[en.Label]), en.Label, guard, t)
 		o.Extra = extra
+		for _, rv := range x.Results {
+			o.Results = append(o.Results, e.val(rv))
+		}
 		o.Pos = e.w.fset.Position(x.Pos())
 	}
 }
